@@ -61,5 +61,12 @@ for impl, pkg, f, ren in [
         add("NewReset-s%d" % sl, "HarnessXofNewReset", {"p0": sl}, ["New", "(*xof).Reset", "(*xof).Read", "(*xof).Write"], "seed length %d, all seed bytes" % sl, sl in (0, 1, 32, 33, 64, 65, 300))
     for n in [0, 1, 600]:
         add("ReadWrite-n%d" % n, "HarnessXofReadWrite", {"p0": -1, "p1": n}, ["(*xof).Read", "(*xof).Write"], "chunk length %d (Write capped at 400 recorded bytes)" % n, n == 1)
+for cfg in [(32, -1, -1), (40, -1, -1), (32, 32, -1), (32, 31, -1), (31, 32, -1), (0, 32, -1), (32, 0, -1), (5, 32, -1), (32, 32, 32), (32, 7, 0), (1, 40, 31), (31, 31, 32)]:
+    XH.append(dict(name="randstream-%s" % "_".join(str(a) for a in cfg if a >= 0), pkg="./util/random", files=["harness/C19/randstream.go"], entry="HarnessRandStream", mode="bv",
+                   params={"p0": cfg[0], "p1": cfg[1], "p2": cfg[2]}, unwind=400, replay_entry="HarnessRandStreamReplay",
+                   renames={"crypto/sha256.New": "fkSha256New", "go.dedis.ch/kyber/v4/xof/blake2xb.New": "fkXofNew"},
+                   stubs=["crypto/sha256.New -> recording hash; blake2xb.New -> recording expander (the hash functions are outside the claim)"],
+                   functions=["random.New", "random.(*randstream).XORKeyStream", "io.ReadFull"], bound="readers delivering %s bytes (a reader with fewer than 32 fails afterwards), all byte values" % ", ".join(str(a) for a in cfg if a >= 0),
+                   tiers=(["quick", "thorough"] if cfg in ((32, -1, -1), (32, 31, -1), (0, 32, -1), (32, 7, 0), (1, 40, 31)) else ["thorough"])))
 json.dump(dict(property="C19", harnesses=XH), open(os.path.join(os.path.dirname(__file__), "..", "specs", "C19xof.json"), "w"), indent=1)
 print(len(XH))
